@@ -31,12 +31,19 @@ SHAPES = {
     "4c": (4, lambda v: [(v[0], v[1]), (v[1], v[2]), (v[2], v[3]), (v[0], v[3])]),
     "d": (4, lambda v: [(v[0], v[1]), (v[1], v[2]), (v[2], v[3]), (v[0], v[3]), (v[0], v[2])]),
     "4": (4, lambda v: [(v[a], v[b]) for a in range(4) for b in range(a + 1, 4)]),
+    # larger motifs, used by the catalogue only
+    "5": (5, lambda v: [(v[a], v[b]) for a in range(5) for b in range(a + 1, 5)]),
+    "5c": (5, lambda v: [(v[i], v[(i + 1) % 5]) for i in range(5)]),
+    "bar": (6, lambda v: [(v[0], v[1]), (v[0], v[2]), (v[1], v[2]), (v[3], v[4]), (v[3], v[5]), (v[4], v[5]),
+                          (v[2], v[3])]),
 }
+SMALL_SHAPES = ("2", "3", "4c", "d", "4")
 
 
 def motif_candidates(N):
     out = []
-    for key, (size, f) in SHAPES.items():
+    for key in SMALL_SHAPES:
+        size, f = SHAPES[key]
         seen = set()
         for sub in itertools.combinations(range(N), size):
             for perm in itertools.permutations(sub):
@@ -76,7 +83,20 @@ def catalogue():
         ("two-diamonds-closed", 7, mk([("d", (0, 1, 2, 3)), ("d", (3, 4, 5, 6)), ("2", (1, 5))])),
         ("triangle+cycle+edges", 6, mk([("3", (0, 1, 2)), ("4c", (2, 3, 4, 5)), ("2", (0, 4)), ("2", (1, 5))])),
         ("K4+triangles", 6, mk([("4", (0, 1, 2, 3)), ("3", (3, 4, 5)), ("2", (0, 4)), ("2", (1, 5))])),
+        # larger motifs: 5-clique, 5-cycle, barbell (two triangles joined by a bridge inside ONE motif)
+        ("K5+triangle+edges", 7, mk([("5", (0, 1, 2, 3, 4)), ("3", (4, 5, 6)), ("2", (0, 5)), ("2", (1, 6))])),
+        ("5-cycle+triangle+edges", 7, mk([("5c", (0, 1, 2, 3, 4)), ("3", (4, 5, 6)), ("2", (0, 5)), ("2", (2, 6))])),
+        ("barbell+edges", 8, mk([("bar", (0, 1, 2, 3, 4, 5)), ("2", (0, 6)), ("2", (6, 7)), ("2", (7, 5))])),
+        # 12 motifs: ids reach two digits (see ID_MAPS: also non-contiguous ids such as 1, 6, 11, 16)
+        ("K6-minus-matching-by-2-cliques", 6, mk([("2", p) for p in itertools.combinations(range(6), 2)
+                                                   if p not in ((0, 1), (2, 3), (4, 5))])),
+        # two components and an isolated vertex (vertex 8)
+        ("two-components+isolated", 9, mk([("3", (0, 1, 2)), ("3", (2, 3, 4)), ("2", (0, 3)), ("2", (1, 4)),
+                                           ("3", (5, 6, 7))])),
     ]
+
+
+ID_MAPS = {"contiguous": lambda i: i, "sparse-ids": lambda i: 5 * i + 1}
 
 
 def dense(N, maxm, keys, minm=3):
@@ -125,20 +145,33 @@ def instances(tier, seed):
         if batch:
             yield {"kind": "nets", "N": N, "nets": batch}
     for name, N, net in catalogue():
-        labs = enumr.relabelings(N, seed, kinds=("identity", "sparse") if tier == "quick" else
-                                 ("identity", "reversed", "sparse"))
-        for lab in labs:
+        heavy = sum(len(es) for _, _, es in net) >= 12
+        plain = enumr.relabelings(N, seed, kinds=("identity",))[0]
+        sparse = enumr.relabelings(N, seed, kinds=("sparse",))[0]
+        variants = []
+        if not (heavy and tier == "quick"):
+            variants.append((plain, "contiguous", False, ""))
+        # non-contiguous shuffled vertex ids + non-contiguous two-digit motif ids + reversed vertex/edge lists in labels
+        variants.append((sparse, "sparse-ids", True, " (sparse vertex ids, sparse motif ids, reversed label lists)"))
+        if tier == "thorough":
+            variants.append((enumr.relabelings(N, seed, kinds=("reversed",))[0], "contiguous", True, " (reversed)"))
+        for lab, ids, rev, suffix in variants:
             net2 = [(k, [lab[v] for v in vs], [tuple(sorted((lab[a], lab[b]))) for a, b in es]) for k, vs, es in net]
-            yield {"kind": "nets", "N": N, "nets": [net2], "name": name, "verts": sorted(lab)}
+            yield {"kind": "nets", "N": N, "nets": [net2], "name": name + suffix, "verts": sorted(lab), "ids": ids,
+                   "reverse_lists": rev}
     yield {"kind": "history"}
 
 
-def build_graph(verts, net):
+def build_graph(verts, net, ids="contiguous", reverse_lists=False):
     import networkx as nx
     G = nx.Graph()
     G.add_nodes_from(verts)
-    for uid, (key, vs, es) in enumerate(net):
-        label = f"{key}-{list(vs)}-{[tuple(e) for e in es]}-{uid}"
+    for i, (key, vs, es) in enumerate(net):
+        uid = ID_MAPS[ids](i)
+        vl = list(vs)[::-1] if reverse_lists else list(vs)
+        el = [tuple(e) for e in es][::-1] if reverse_lists else [tuple(e) for e in es]
+        key = key if key.isdigit() else str(len(vs))     # the label's first field is parsed as an int by the mixin
+        label = f"{key}-{vl}-{el}-{uid}"
         for a, b in es:
             G.add_edge(a, b, CoverLabel=label)
     return G
@@ -194,14 +227,16 @@ GRID = [i / 20 for i in range(21)]
 
 def check_net(res, verts, net, tier, desc):
     from gcmpy.message_passing.message_passing import MessagePassing
-    G = build_graph(verts, net)
+    G = build_graph(verts, net, desc.get("ids", "contiguous"), desc.get("reverse_lists", False))
     res.states += 1
     # bounds, zero at phi=0, monotone in phi for several iteration counts
-    for iters in (1, 2, 3, 5, 25):
+    heavy = sum(len(es) for _, _, es in net) >= 12
+    grid = GRID[::2] if heavy else GRID
+    for iters in ((1, 3) if heavy else (1, 2, 3, 5, 25)):
         try:
             mp = MessagePassing(G, iterations=iters)
             vals = []
-            for phi in GRID:
+            for phi in grid:
                 res.executions += 1
                 res.transitions += 1
                 vals.append(mp.theoretical(phi))
@@ -211,18 +246,19 @@ def check_net(res, verts, net, tier, desc):
         if abs(vals[0]) > 1e-12:
             res.violation("C17:nonzero-at-phi-0", f"net={net} iterations={iters}: theoretical(0) = {vals[0]}", desc)
             return
-        for phi, a in zip(GRID, vals):
+        for phi, a in zip(grid, vals):
             if not -1e-12 <= a <= 1 + 1e-12:
                 res.violation("C17:out-of-range", f"net={net} iterations={iters}: theoretical({phi}) = {a}", desc)
                 return
-        for (p0, a), (p1, b) in zip(zip(GRID, vals), zip(GRID[1:], vals[1:])):
+        for (p0, a), (p1, b) in zip(zip(grid, vals), zip(grid[1:], vals[1:])):
             if b < a - 1e-12:
                 res.violation("C17:not-monotone", f"net={net} iterations={iters}: theoretical({p0}) = {a} > "
                               f"theoretical({p1}) = {b}", desc)
                 return
     # fixed point
     import math
-    for phi in (0.1, 0.2, 0.3, 0.4, 0.5, 0.6, 0.7, 0.8, 0.9, 0.95, 1.0):
+    for phi in ((0.3, 0.6, 0.8, 0.97, 1.0) if heavy else
+                (0.1, 0.2, 0.3, 0.4, 0.5, 0.6, 0.7, 0.8, 0.9, 0.95, 0.97, 0.99, 1.0)):
         refs = [reference(verts, net, phi, "jacobi"), reference(verts, net, phi, "gs-rev"),
                 reference(verts, net, phi, "jacobi", start=0.0)]
         if any(r is None for r in refs) or max(r[2] for r in refs) > 0.9 \
@@ -322,7 +358,9 @@ def run_instance(inst, tier):
     for net in inst["nets"]:
         net = [(k, list(vs), [tuple(e) for e in es]) for k, vs, es in net]
         verts = inst.get("verts") or list(range(inst["N"]))
-        check_net(res, verts, net, tier, {"kind": "nets", "N": inst["N"], "nets": [net], "verts": verts})
+        check_net(res, verts, net, tier, {"kind": "nets", "N": inst["N"], "nets": [net], "verts": verts,
+                                           "ids": inst.get("ids", "contiguous"),
+                                           "reverse_lists": inst.get("reverse_lists", False)})
         if len(res.violations) >= 5:
             break
     if not res.samples:
